@@ -3,16 +3,19 @@ package main
 // govc check <id> [--tier quick|thorough]: decide one property on the current /repo tree.
 
 import (
-	"sync"
+	"go/types"
+
 	"crypto/sha1"
 	"encoding/json"
 	"flag"
 	"fmt"
+	"golang.org/x/tools/go/ssa"
 	"os"
 	"path/filepath"
 	"sort"
 	"strconv"
 	"strings"
+	"sync"
 	"time"
 )
 
@@ -24,7 +27,7 @@ type PropRun struct {
 	Assumptions []string
 	NotCovered  []string
 	Explanation string
-	Level       string // evidence level: proof | other
+	Level       string           // evidence level: proof | other
 	Bounded     []map[string]any // bounded stand-ins (never counted as proved)
 	Extra       map[string]any
 	// custom replay synthesiser: returns (goTestSource, pkgDir, testName) or "" if none
@@ -98,6 +101,7 @@ func loadKnown() *knownFile {
 
 type baselineFile struct {
 	Property    string   `json:"property"`
+	Functions   []string `json:"functions"`
 	Obligations []string `json:"obligations"`
 	Undecided   []string `json:"undecided_on_unchanged_tree"`
 }
@@ -302,7 +306,7 @@ func cmdCheck(args []string) int {
 				fmt.Printf("KNOWN-FINDING: property=%s %s witness: %s\n", id, o.Name, kf.Witness)
 				continue
 			}
-			if !isClaimed && !baseUndecided[o.Name] && !*writeBaseline && o.Model != "" && r.frame != nil {
+			if !isClaimed && !baseUndecided[o.Name] && !*writeBaseline && o.Model != "" && r.frame != nil && apiReachable(r.frame.fn) {
 				// a new potentially panicking instruction (not present on the unchanged tree): replay its counter-model
 				if spec := genericReplay(e, r, o); spec != nil {
 					if out, failed := runReplay(e, spec); failed {
@@ -324,12 +328,7 @@ func cmdCheck(args []string) int {
 				continue
 			}
 			if !contractKinds[o.Kind] && undecidedSiblings[baseName(o.Name)] && !*writeBaseline {
-				confirmed := false
-				if o.Model != "" && r.frame != nil {
-					if spec := genericReplay(e, r, o); spec != nil {
-						_, confirmed = runReplay(e, spec)
-					}
-				}
+				confirmed := false // the failing instance may be the sibling that was already undecided: no claim either way
 				if !confirmed {
 					undecided++
 					undecidedList = append(undecidedList, o.Name+" ["+o.Answer+", ambiguous ordinal]")
@@ -416,7 +415,12 @@ func cmdCheck(args []string) int {
 		sort.Strings(names)
 		sort.Strings(und)
 		os.MkdirAll(filepath.Join(verifDir(), "baseline"), 0o755)
-		b, _ := json.MarshalIndent(baselineFile{Property: id, Obligations: names, Undecided: und}, "", " ")
+		var fnames []string
+		for _, r := range run.Results {
+			fnames = append(fnames, r.Fn)
+		}
+		sort.Strings(fnames)
+		b, _ := json.MarshalIndent(baselineFile{Property: id, Functions: fnames, Obligations: names, Undecided: und}, "", " ")
 		os.WriteFile(filepath.Join(verifDir(), "baseline", id+".json"), b, 0o644)
 		fmt.Printf("baseline written: %d obligations\n", len(names))
 	}
@@ -449,15 +453,15 @@ func cmdCheck(args []string) int {
 	}
 	cov := map[string]any{
 		"obligations": claimed, "discharged": discharged,
-		"checker_cmd":   fmt.Sprintf("govc check %s --tier %s  (VC generation over go/ssa of /repo's working tree; z3-new, z3, cvc5 raced per obligation)", id, tier.Name),
-		"trusted_base":  trusted,
-		"samples":       samples,
-		"functions_under_contract": run.FUC,
+		"checker_cmd":                 fmt.Sprintf("govc check %s --tier %s  (VC generation over go/ssa of /repo's working tree; z3-new, z3, cvc5 raced per obligation)", id, tier.Name),
+		"trusted_base":                trusted,
+		"samples":                     samples,
+		"functions_under_contract":    run.FUC,
 		"obligations_generated_total": total,
-		"by_kind": kinds, "known_findings": knownList, "undecided_unclaimed": undecided, "undecided_list": undecidedList,
+		"by_kind":                     kinds, "known_findings": knownList, "undecided_unclaimed": undecided, "undecided_list": undecidedList,
 		"baseline_obligations_gone": gone, "solver_wins": solverWins, "solver_seconds": solverSecs,
 		"not_covered": run.NotCovered, "unsupported_notes": notes, "explanation": run.Explanation,
-		"bounded_stand_ins": run.Bounded, "abstracted_callees": run.Abstracted,
+		"bounded_stand_ins": run.Bounded, "abstracted_callees": run.Abstracted, "helpers_seen_through_inlining": e.Exempted,
 		"evaluations": total, "distinct_nontrivial": claimed, "rule": "one evaluation = one generated verification condition; non-trivial = claimed (in the committed baseline or generated from a contract/schema clause)",
 	}
 	for k, v := range run.Extra {
@@ -480,6 +484,30 @@ func cmdCheck(args []string) int {
 		return 1
 	}
 	return 0
+}
+
+// apiReachable: exported function or exported method of an exported type - a caller outside the module can invoke it
+// with the arguments of a counter-model. A panic of an unexported helper on arguments its callers never pass is not
+// a violation of a property about the public entry points.
+func apiReachable(fn *ssa.Function) bool {
+	if fn == nil || fn.Parent() != nil {
+		return false
+	}
+	obj, ok := fn.Object().(*types.Func)
+	if !ok || !obj.Exported() {
+		return false
+	}
+	if recv := fn.Signature.Recv(); recv != nil {
+		t := recv.Type()
+		if p, ok := t.(*types.Pointer); ok {
+			t = p.Elem()
+		}
+		if n, ok := t.(*types.Named); ok {
+			return n.Obj().Exported()
+		}
+		return false
+	}
+	return true
 }
 
 func baseName(n string) string {
